@@ -19,7 +19,7 @@
          Close was called, or the context was cancelled with every (>= 1) handler subscribed
          and all subscriptions following the Run context
       11 (harness watchdog) Run did not return after its context was cancelled on a router that
-         has no handler (known finding D15: the watcher only waits for handlerAdded / closedCh)
+         has no handler (D15, repaired by eb6589f: the watcher only waited for handlerAdded / closedCh)
     No proofs here. *)
 From WM Require Import Base.Prelude RouterLife.Model.
 From RecordUpdate Require Import RecordSet.
